@@ -115,6 +115,71 @@ def run(cx):
     from . import c01
     c01.tuple_rhs_once(r, pm)
 
+    # ---- C15-CLICKS --------------------------------------------------------------------------
+    import itertools
+    from .. import ckern
+    from . import c04
+    r = cx.rule("C15-CLICKS", "for every sampled signal of up to 7 polls the firmware's poll (evaluated with C semantics, one digitalRead per pass) calls the handler exactly once per released-to-pressed transition, never at start-up, and caches that sample; for signals that start released the host Button (driven through a state provider) counts the same clicks and returns the same samples", floor=200, exhaustive=True)
+    hb = mod("Sensors/Button.py")
+    cbf = cls["FunctionDef"](name="on_press", params=[], body=[], return_type="void")
+    resb = pe.emit_program(setup=[l2.decl_node("Button", on_click="on_press")], loop=[cls["ButtonPoll"](name="dev")], functions=[cbf])
+    if resb.raised:
+        raise AnalysisError("emit() raises for a polled button with a handler")
+    fb = l2.functions_of(resb.text, ["setup", "loop"])
+    n_bad = 0
+    for L in range(1, 8):
+        for sig in itertools.product((0, 1), repeat=L):
+            # firmware: the first sample is taken in setup(), then one per loop() pass
+            feed = list(sig)
+            reads = []
+
+            def dr(args, _feed=feed, _reads=reads):
+                _reads.append(1)
+                return _feed[min(len(_reads) - 1, len(_feed) - 1)]
+
+            k = ckern.Kern(env={"__redu_button_prev_dev": 0, "__redu_button_value_dev": 0, "HIGH": 1, "LOW": 0, "INPUT_PULLUP": 2}, types={"__redu_button_prev_dev": "bool", "__redu_button_value_dev": "bool"})
+            k.call_hooks["digitalRead"] = dr
+            try:
+                k.block(fb["setup"][0]["body"])
+                per_pass, cached = [], []
+                for _i in range(1, L):
+                    before = len(reads)
+                    k.block(fb["loop"][0]["body"])
+                    per_pass.append(len(reads) - before)
+                    cached.append(int(bool(k.env["__redu_button_value_dev"])))
+            except ckern.KernUnsupported as e:
+                raise AnalysisError(f"button poll kernel left the evaluable subset: {e}")
+            clicks_fw = sum(1 for ev in k.events if ev[0] == "on_press")
+            rising = sum(1 for a_, b_ in zip(sig, sig[1:]) if not a_ and b_)
+            good = clicks_fw == rising and all(p_ == 1 for p_ in per_pass) and cached == list(sig[1:])
+            if good and sig[0] == 0:
+                # host: one is_pressed() per sample, provider-driven
+                it_sig = iter(sig)
+                clicks = []
+                prov = lambda _it=it_sig: bool(next(_it))
+                prov._dl_lambda = True
+                cb_ = lambda _c=clicks: _c.append(1)
+                cb_._dl_lambda = True
+                o = c04.host_object(hb, "Button", 7, on_click=cb_, state_provider=prov)
+                vals = []
+                for _ in sig:
+                    out = dl.Interp(hb).call(hb.func("Button.is_pressed"), [o])
+                    if out.kind != "return":
+                        raise AnalysisError(f"host Button.is_pressed raises {out.value}")
+                    vals.append(out.value)
+                good = len(clicks) == rising and vals == list(sig)
+                if not good:
+                    n_bad += 1
+                    if n_bad <= 3:
+                        r.fail("Button/host-clicks=firmware-clicks", (hb, hb.func("Button.is_pressed")), f"signal {sig}: host counts {len(clicks)} click(s) and returns {vals}; the firmware (and the signal) have {rising} rising edge(s)", detail={"signal": sig})
+                    continue
+            if good:
+                r.ok(None)
+            else:
+                n_bad += 1
+                if n_bad <= 3:
+                    r.fail("ButtonPoll/one-click-per-rising-edge", (em, em.func("_emit_block")), f"signal {sig} (first sample in setup()): firmware calls the handler {clicks_fw} time(s) for {rising} rising edge(s), reads per pass {per_pass}, cached samples {cached}", detail={"signal": sig})
+
     # ---- C15-ULTRA ---------------------------------------------------------------------------
     r = cx.rule("C15-ULTRA", "the ultrasonic helper retries at most 3 times, waits out the 60 ms minimum interval (only once the clock is running) before triggering, stamps the trigger time after the echo, converts with 0.0343/2 and falls back to the last good reading, else 400", floor=12)
     res = pe.emit_program(setup=[l2.decl_node("Ultrasonic")], loop=[cls["ExprStmt"](expr="__redu_ultrasonic_measure_dev()")], ultrasonic={"dev"})
